@@ -292,4 +292,29 @@ theorem C19_next_line_always_counted (fuel : Nat) (rest : Bytes) (i : Nat) (h : 
     | exact hself
     | exact List.take_left' hlen
 
+/-- **C19_lookahead_only_skips.**  What `resumeLineLimit` counts is never more than what is buffered: the look-ahead can only leave
+    octets out (announced chunk payloads), it never counts an octet twice or invents one — so it cannot make a line look longer
+    than it is (a line within the maximum is never refused on its account). -/
+theorem C19_lookahead_only_skips (fuel : Nat) : ∀ rest : Bytes, (cutAtBdat fuel rest).length ≤ rest.length := by
+  induction fuel with
+  | zero => intro rest; unfold cutAtBdat; exact Nat.le_refl _
+  | succ fuel ih =>
+    intro rest
+    unfold cutAtBdat
+    split
+    · exact Nat.le_refl _
+    · rename_i i hi
+      have hle := lfEnd_le_length rest i hi
+      have h1 := ih (List.drop i rest)
+      simp only []
+      repeat' split
+      all_goals first
+        | exact Nat.le_refl _
+        | (simp only [List.length_take]; omega)
+        | (simp only [List.length_append, List.length_take, List.length_drop] at *; omega)
+        | (rename_i size _ _
+           have h2 := ih (List.drop size (List.drop i rest))
+           simp only [List.length_append, List.length_take, List.length_drop] at *
+           omega)
+
 end SmtpV.Props.C19
